@@ -26,9 +26,9 @@ theorem splitAtom_renderAtom (name body rest : Bytes) (hn : name.length = 4) (hl
   have hlen : (renderAtom name body ++ rest).length = body.length + 8 + rest.length := by
     simp [renderAtom_length name body hn]
   have e1 : (renderAtom name body ++ rest).take 4 = toBE 4 (body.length + 8) := by
-    rw [hshape, ← h4]; exact take_left_len _ _
+    rw [hshape]; exact take_of_len _ _ 4 h4
   have e2 : ((renderAtom name body ++ rest).drop 4).take 4 = name := by
-    rw [hshape, ← h4, drop_left_len, ← hn]; exact take_left_len _ _
+    rw [hshape, drop_of_len _ _ 4 h4]; exact take_of_len _ _ 4 hn
   have e3 : (renderAtom name body ++ rest).take (body.length + 8) = renderAtom name body := by
     rw [← renderAtom_length name body hn]; exact take_left_len _ _
   have e4 : (renderAtom name body ++ rest).drop (body.length + 8) = rest := by
@@ -40,9 +40,10 @@ theorem splitAtom_renderAtom (name body rest : Bytes) (hn : name.length = 4) (hl
     rw [← l8]; exact drop_left_len _ _
   unfold splitAtom
   have c1 : ¬ ((renderAtom name body ++ rest).length < 8) := by rw [hlen]; omega
-  simp only [c1, ↓reduceIte, e1, ofBE_toBE 4 _ hl, e2, e3, e4, e5, hlen]
+  simp only [e1, ofBE_toBE 4 _ hl, e2, e3, e4, e5, hlen]
   have c2 : ¬ (body.length + 8 < 8 ∨ body.length + 8 + rest.length < body.length + 8) := by omega
-  simp only [c2, ↓reduceIte]
+  have c3 : ¬ (body.length + 8 + rest.length < 8) := by omega
+  simp only [c2, c3, ↓reduceIte]
 
 def DataOK (d : Data) : Prop := d.version < 256 ∧ d.flags < 16777216 ∧ d.payload.length + 16 < 256 ^ 4
 
@@ -170,7 +171,7 @@ theorem decodeFreeform_encodeFreeform (mean name : Bytes) (ds : List Data) (rest
   have c2 : ¬ ((toBE 4 0 ++ name).length < 4) := by simp
   simp only [t4, c1, or_self, ↓reduceIte, not_true_eq_false]
   rw [splitAtom_renderAtom nameName (toBE 4 0 ++ name) _ (by decide) hnm]
-  simp only [ne_eq, not_true_eq_false, t4', c2, or_self, ↓reduceIte, d4, d4',
+  simp only [not_true_eq_false, t4', c2, or_self, ↓reduceIte, d4, d4',
     decodeDatas_encode ds hd _ (length_le_flatten ds), Option.map_some]
 
 /-! ## integers and pairs -/
